@@ -7,6 +7,7 @@ import (
 	"bytes"
 	"encoding/json"
 	"fmt"
+	"go.etcd.io/bbolt"
 	"os"
 	"os/exec"
 	"strings"
@@ -23,13 +24,13 @@ func init() {
 }
 
 type C19Case struct {
-	Header  []S     `json:"header"`
-	Records [][]S   `json:"records"`
-	Malform string  `json:"malform,omitempty"` // "" | ragged-short | ragged-long | bare-quote
-	MalAt   int     `json:"mal_at,omitempty"`  // record index the malformation is applied to
-	Present string  `json:"present,omitempty"` // pre-existing output: "" | empty | index | garbage
-	LF      bool    `json:"lf,omitempty"`      // records end in LF instead of CR LF
-	NoFinal bool    `json:"no_final,omitempty"` // last record without line terminator
+	Header  []S    `json:"header"`
+	Records [][]S  `json:"records"`
+	Malform string `json:"malform,omitempty"`  // "" | ragged-short | ragged-long | bare-quote
+	MalAt   int    `json:"mal_at,omitempty"`   // record index the malformation is applied to
+	Present string `json:"present,omitempty"`  // pre-existing output: "" | empty | index | garbage
+	LF      bool   `json:"lf,omitempty"`       // records end in LF instead of CR LF
+	NoFinal bool   `json:"no_final,omitempty"` // last record without line terminator
 	// PriorKill > 0: before the run under test, an earlier `updog create` to the SAME output path
 	// with OTHER records is killed by SIGKILL at that per-mille position of its write sequence
 	// and the partial output removed — whatever else that run left behind must not matter
@@ -105,7 +106,7 @@ func genC19(c *Ctx) any {
 		cs.MalAt = []int{0, nrec / 2, nrec - 1}[r.Intn(3)]
 	}
 	if r.Chance(1, 4) {
-		cs.Present = []string{"empty", "index", "garbage", "symlink-dangling", "symlink-file", "directory"}[r.Intn(6)]
+		cs.Present = presentKinds[r.Intn(len(presentKinds))]
 	} else if cs.Malform == "" && r.Chance(1, 6) {
 		cs.PriorKill = r.Range(300, 990)
 		cs.PriorRecords = r.Range(1100, 2600)
@@ -234,6 +235,8 @@ func childActivity(pid int) (int64, bool) {
 	return cpu, asleep
 }
 
+var presentKinds = []string{"empty", "index", "garbage", "symlink-dangling", "symlink-file", "directory", "bolt-empty", "bolt-data-noschema", "bolt-other", "hardlink"}
+
 func presetFile(c *Ctx, path, kind string) error {
 	switch kind {
 	case "empty":
@@ -258,6 +261,38 @@ func presetFile(c *Ctx, path, kind string) error {
 		return os.Symlink(path+".linked", path)
 	case "directory":
 		return os.Mkdir(path, 0o755)
+	case "bolt-empty", "bolt-data-noschema", "bolt-other":
+		// somebody else's bbolt database, or the remains of an interrupted index build
+		db, err := bbolt.Open(path, 0o644, nil)
+		if err != nil {
+			return err
+		}
+		err = db.Update(func(tx *bbolt.Tx) error {
+			switch kind {
+			case "bolt-data-noschema":
+				b, err := tx.CreateBucket([]byte("data"))
+				if err != nil {
+					return err
+				}
+				return b.Put([]byte("V12345678"), []byte("some value"))
+			case "bolt-other":
+				b, err := tx.CreateBucket([]byte("users"))
+				if err != nil {
+					return err
+				}
+				return b.Put([]byte("alice"), []byte("precious"))
+			}
+			return nil
+		})
+		if cerr := db.Close(); err == nil {
+			err = cerr
+		}
+		return err
+	case "hardlink":
+		if err := os.WriteFile(path+".linked", []byte("a file with two names\n"), 0o644); err != nil {
+			return err
+		}
+		return os.Link(path+".linked", path)
 	}
 	return nil
 }
@@ -267,7 +302,7 @@ func presetSide(path, kind string) string {
 	switch kind {
 	case "symlink-dangling":
 		return statSig(path + ".target-that-does-not-exist")
-	case "symlink-file":
+	case "symlink-file", "hardlink":
 		return statSig(path + ".linked")
 	}
 	return ""
@@ -482,12 +517,12 @@ func clipStr(s string, n int) string {
 // ------------------------------------------------------------------------- C16
 
 type C16Case struct {
-	Data    Dataset  `json:"data"`
-	Present string   `json:"present"` // empty | index | garbage | readonly
-	Writer  string   `json:"writer"`  // flush | cli | cli-big
+	Data    Dataset   `json:"data"`
+	Present string    `json:"present"` // empty | index | garbage | readonly
+	Writer  string    `json:"writer"`  // flush | cli | cli-big
 	Opens   []OpenCfg `json:"opens"`
-	Queries []*Query `json:"queries"`
-	Repeat  int      `json:"repeat"`
+	Queries []*Query  `json:"queries"`
+	Repeat  int       `json:"repeat"`
 }
 
 func genC16(c *Ctx) any {
@@ -502,7 +537,7 @@ func genC16(c *Ctx) any {
 		cs.Data.Spec.N = r.Range(1200, 2500)
 		cs.Data.Spec.Cols = append(cs.Data.Spec.Cols, ColSpec{Name: "wide", Card: r.Range(1001, 2200), Shape: "uniform", Kind: "num"})
 	}
-	cs.Present = []string{"empty", "index", "garbage", "readonly", "symlink-dangling", "symlink-file", "directory"}[r.Intn(7)]
+	cs.Present = append([]string{"readonly"}, presentKinds...)[r.Intn(1+len(presentKinds))]
 	cs.Writer = []string{"flush", "flush", "cli", "cli-big"}[r.Intn(4)]
 	for i, n := 0, r.Range(1, 3); i < n; i++ {
 		cs.Opens = append(cs.Opens, genOpenCfg(r, true))
